@@ -14,6 +14,11 @@ fn ticks(d: Duration) -> u64 {
     d.as_nanos().min(u64::MAX as u128 / 4) as u64
 }
 
+/// like std: adding an enormous duration overflows
+fn overflows(d: Duration) -> bool {
+    d.as_nanos() > (u64::MAX as u128 / 8)
+}
+
 impl Instant {
     pub fn now() -> Instant {
         // the read-and-advance is a loom RMW (Relaxed: it orders nothing), so
@@ -36,6 +41,9 @@ impl Instant {
         })
     }
     pub fn checked_add(&self, d: Duration) -> Option<Instant> {
+        if overflows(d) {
+            return None;
+        }
         self.0.checked_add(ticks(d)).map(Instant)
     }
     pub fn checked_sub(&self, d: Duration) -> Option<Instant> {
